@@ -630,7 +630,7 @@ pub fn c11() -> SeqCheck {
             ccfg.reuse_ids = false;
             let mut g = hseq::Gen::new(ccfg, Rng::new(rng.next_u64()));
             g.price = tr.price;
-            g.skip_ids(1_000);
+            g.skip_ids(100_000);
             let n_cont = 2 + rng.usize_below(8);
             let cont_o = hseq::continue_run(&mut g, &mut orig, n_cont, true);
             let cops = cont_o.ops();
